@@ -29,6 +29,8 @@ def alphabet(P):
         ("other-snoopy", b"/usr/local/lib/libsnoopy.so"),
         ("foreign-percent", b"/usr/lib/lib%s%n%%d-100%.so"),
         ("comment-percent", b"# 100% of %s %n %5$x %"),
+        ("own-shared-mention", P + b" /usr/lib/libshared.so # replaces /old/libsnoopy.so"),
+        ("own-comment-mention", P + b" # the libsnoopy.so entry"),
     ]
 
 
@@ -50,7 +52,7 @@ def random_file(rng, P, maxlines=40):
     al = alphabet(P)
     n = rng.randrange(1, maxlines + 1)
     # bias: mostly foreign/comment lines, a few snoopy-related
-    weights = [6, 3, 3, 4, 5, 2, 2, 2, 2, 1, 1, 1, 1, 1, 1, 1, 2, 1, 1, 1]
+    weights = [6, 3, 3, 4, 5, 2, 2, 2, 2, 1, 1, 1, 1, 1, 1, 1, 2, 1, 1, 1, 1, 1]
     idx = rng.choices(range(len(al)), weights=weights, k=n)
     lines = []
     for i in idx:
@@ -201,6 +203,14 @@ def disable_check(old, new, rc, P):
 
 # ------------------------------------------------------------------ runner
 
+def variant_for(name):
+    """deterministically: how the command is started (closed descriptors) and whether the file is a symbolic link"""
+    h = sum(name.encode()) % 23
+    closed = {3: (1,), 7: (2,), 11: (1, 2), 13: (0,), 17: (0, 1, 2)}.get(h)
+    link = {5: "short", 9: "long", 19: "short"}.get(h)
+    return closed, link
+
+
 def stale_for(name, content, P):
     """deterministically gives about a third of the files a left-over temporary file of an earlier, killed run (a run
     killed before its rename leaves one behind - C20 observes that): longer than anything this run writes, or very short."""
@@ -220,8 +230,21 @@ class Ctl:
         self.env = {"PATH": "/usr/bin:/bin", "SNOOPY_TEST_LD_SO_PRELOAD_PATH": self.file,
                     "SNOOPY_TEST_LIBSNOOPY_SO_PATH": build.lib}
 
-    def put(self, content, stale=None):
-        """stale: bytes to leave in the temporary file of an earlier, killed run (None = no such file)."""
+    def put(self, content, stale=None, link=None):
+        """stale: bytes to leave in the temporary file of an earlier, killed run (None = no such file).
+        link: None = regular file; "short" / "long" = ld.so.preload is a symbolic link to the real file (whose name is shorter /
+        longer than typical contents)."""
+        for f in (self.file, os.path.join(os.path.dirname(self.file), "t"), os.path.join(os.path.dirname(self.file), "the-real-preload-file-behind-a-symbolic-link-" + "x" * 120)):
+            try:
+                os.unlink(f)
+            except FileNotFoundError:
+                pass
+        if link and content is not None:
+            target = os.path.join(os.path.dirname(self.file), "t" if link == "short" else "the-real-preload-file-behind-a-symbolic-link-" + "x" * 120)
+            with open(target, "wb") as f:
+                f.write(content)
+            os.symlink(os.path.basename(target) if link == "short" else target, self.file)
+            content = "linked"
         tmp = self.file + ".snoopy-tmp"
         try:
             os.unlink(tmp)
@@ -235,7 +258,7 @@ class Ctl:
                 os.unlink(self.file)
             except FileNotFoundError:
                 pass
-        else:
+        elif content != "linked":
             with open(self.file, "wb") as f:
                 f.write(content)
 
@@ -246,6 +269,17 @@ class Ctl:
         except FileNotFoundError:
             return None
 
-    def run(self, action):
-        r = subprocess.run([self.ctl, action], env=self.env, capture_output=True, timeout=30)
-        return r.returncode, r.stdout, r.stderr
+    def run(self, action, closed=None):
+        """closed: None, or a tuple of descriptor numbers the command is started without (e.g. (1,) = `snoopyctl enable >&-`)"""
+        if not closed:
+            r = subprocess.run([self.ctl, action], env=self.env, capture_output=True, timeout=30)
+            return r.returncode, r.stdout, r.stderr
+
+        def pre():
+            for fd in closed:
+                try:
+                    os.close(fd)
+                except OSError:
+                    pass
+        r = subprocess.run([self.ctl, action], env=self.env, stdin=subprocess.DEVNULL, stdout=subprocess.DEVNULL, stderr=subprocess.DEVNULL, timeout=30, preexec_fn=pre)
+        return r.returncode, b"", b""
